@@ -707,3 +707,42 @@ def sequences_exact(ctx, prog):
             if r != ("nonzero", frozenset(range(n))):
                 bad.append("LEN %d: %s" % (n, (r[0], sorted(r[1]) if isinstance(r[1], frozenset) else r[1]) if r else r))
         ctx.ob(R, "has_sequences_const::<LEN>(pa) is the run test of length LEN (at MAX_SEQUENCE_SIZE + 1 and seven other lengths)", not bad, "; ".join(bad[:4]) or "8 instantiations interpreted", g.loc())
+
+
+def initialisers_complete(ctx, prog):
+    """a position array that is scored against was filled first: the checked `init_from` of the position array is `clear_representation_only`
+    followed by `init_from_partial(self, blockhash)`, and in `compare_optimized_internal` every `score_strings*` on a local array is dominated
+    by an `init_from_partial` of that same array (the accumulate rule cannot see an initialisation that is simply not there)."""
+    R2 = "SA-TYPESTATE"
+    fs = [f for f in prog.fns if f.path == "<T as internals::compare::position_array::BlockHashPositionArrayImplMut>::init_from"]
+    if len(fs) != 1:
+        ctx.ob("ANCHOR", "ImplMut::init_from", False, "%d bodies" % len(fs))
+    else:
+        f = fs[0]
+        ctx.visit(f)
+        sy = Sym(f)
+        seq = [(callee_of(t).split("::")[-1], [canon(strip(sy.operand(a))) for a in t["args"]], i) for i, t in f.calls() if prog.get(callee_of(t)) is not None or "position_array::" in callee_of(t)]
+        names = [s[0] for s in seq]
+        ok = names == ["clear_representation_only", "init_from_partial"] and seq[0][1] == ["param:self"] and seq[1][1] == ["param:self", "param:blockhash"] and \
+            f.dominates(seq[0][2], seq[1][2])
+        ctx.ob(R2, "position array init_from = clear_representation_only(self); init_from_partial(self, blockhash)", ok, "crate calls: %s" % [(s[0], s[1]) for s in seq], f.loc())
+    gs = [g for g in prog.fns if g.path.endswith("compare_optimized_internal")]
+    for g in gs:
+        ctx.visit(g, weak=True)
+        sy = Sym(g)
+        inits = {}
+        for i, t in g.calls():
+            if callee_of(t).endswith("::init_from_partial") and t["args"]:
+                a = strip(sy.operand(t["args"][0]))
+                if a[0] == "local":
+                    inits.setdefault(a[1], []).append(i)
+        bad = []
+        n = 0
+        for i, t in g.calls():
+            if re.search(r"::score_strings\w*$", callee_of(t)) and t["args"]:
+                a = strip(sy.operand(t["args"][0]))
+                if a[0] == "local":
+                    n += 1
+                    if not any(g.dominates(b, i) for b in inits.get(a[1], [])):
+                        bad.append("score on %s at bb%d without a dominating init_from_partial" % (canon(a), i))
+        ctx.ob(R2, "%s: every local position array that is scored against was initialised from a block hash first" % g.short, not bad and n >= 2, "; ".join(bad) or "%d scored arrays" % n, g.loc())
